@@ -42,7 +42,7 @@ def corpus():
     msgs += [b"A (1;B 2)", b"A (;)", b"A (1,2;B 3);C", b"A #10 ", b"A #10 ,7", b"A #10abc", b"A #10'abc'", b"A #200,1", b"A #10;B", b"A #10,5", b"A? ,1", b"*A? , 1", b"A:B? ,1", b"A ,1",
              b"A? 1,", b"A 1 ,", b"*RST;:A:B?", b"A:B?;*RST;C:D?;E?", b"*RST;A", b"A;;B", b"A; ;B", b"*RST;;A", b"A:B;;C"]
     import stress
-    msgs += stress.trailing_ws_messages()
+    msgs += stress.trailing_ws_messages() + stress.class_limit_messages() + stress.class_limit_messages(tail=b";B 1")
     msgs += [b"A #0ab\r\n", b"A #0\r\r\n", b"A #0ab\r", b"A #0\x34\x12\xff\x7f\x0d\x0d\n", b"A:B?\tMAX", b"A?\x0c1", b"A?\t", b"A?\r1", b"*IDN?\t", b"A\tB", b"A\x0c1",
              b"A 'it''s caf\xc3\xa9'", b'A "a""\xb5"', b"A 'a''\x80", b"A 'a''b''\xff'", b'A "" "\x80"']
     out = [L(m) for m in msgs]
